@@ -195,4 +195,215 @@ theorem good_decodeLoop (chk : Bool) (fuel : Nat) : ∀ (first : Bool) (evs : Li
     · refine good_messages chk _ _ _ _ (by intro p hp; cases hp) (fun st' _ => ?_)
       exact good_fileCrc chk st' _ (fun c => ih false _)
 
+/-! ### `CheckIntegrity` -/
+
+abbrev GC (p : Prog CiOut) : Prop := Good CiOut.merge Fit.Gen.Reader.reservedbuf p
+
+theorem good_ciBody (seq dataSize : Nat) (fuel : Nat) : ∀ (cur crc : Nat) (k : Nat → Prog CiOut),
+    (∀ c, GC (k c)) → GC (checkIntegrity.ciBody seq dataSize fuel cur crc k) := by
+  induction fuel with
+  | zero => intro cur crc k hk; exact hk crc
+  | succ fuel ih =>
+    intro cur crc k hk
+    simp only [checkIntegrity.ciBody]
+    split
+    · refine Good.read _ _ ?_ (fun bs _ _ => ih _ _ k hk) (Good.ret _) (fun _ => ⟨_, _, rfl, rfl, rfl⟩)
+      have := consts_ok.2.2.1
+      rw [this]; exact Nat.min_le_right _ _
+    · exact hk crc
+
+/-- `CheckIntegrity` is a `Good` client: header reads, `discardMessages` in chunks of at most `reservedbuf`, CRC -/
+theorem good_checkIntegrity (fuel : Nat) : ∀ (seq : Nat), GC (checkIntegrity fuel seq) := by
+  have hc := consts_ok
+  induction fuel with
+  | zero => intro seq; exact Good.ret _
+  | succ fuel ih =>
+    intro seq
+    simp only [checkIntegrity]
+    refine Good.read 1 _ (by omega) (fun b0 _ _ => ?_) ?_ (fun h => by omega)
+    rotate_left
+    · simp only
+      split
+      · exact Good.ret _
+      · exact Good.ret _
+    simp only
+    split
+    · exact Good.ret _
+    · rename_i hsz
+      have hsize : b0.headD 0 - 1 ≤ Fit.Gen.Reader.reservedbuf := by omega
+      refine Good.read _ _ hsize (fun b _ _ => ?_) (Good.ret _) (fun _ => ⟨_, _, rfl, rfl, rfl⟩)
+      simp only
+      repeat' split
+      all_goals first
+        | exact Good.ret _
+        | (refine good_ciBody _ _ _ _ _ _ (fun c => ?_)
+           refine Good.read 2 _ (by omega) (fun bs _ _ => ?_) (Good.ret _) (fun _ => ⟨_, _, rfl, rfl, rfl⟩)
+           simp only
+           split
+           · exact Good.ret _
+           · exact ih _)
+
+/-! ### failures of the reader are handed back -/
+
+set_option linter.unusedSimpArgs false
+
+/-- every request of the client, when it fails with error `e`, ends the run with an outcome satisfying `Q e` -/
+inductive Keeps (Q : RErr → Out → Prop) : P → Prop
+  | ret (a : Out) : Keeps Q (.ret a)
+  | read (n : Nat) (k : Except RErr Bytes → P) :
+      (∀ bs, Keeps Q (k (.ok bs))) → (∀ e, ∃ a, k (.error e) = .ret a ∧ Q e a) → Keeps Q (.read n k)
+
+/-- whatever the read buffer, whatever the reader: if `ReadN` hands a failure of the reader to the client, the run
+ends (no panic) with an outcome satisfying `Q` for that error -/
+theorem keeps_run {Q : RErr → Out → Prop} (p : P) (hp : Keeps Q p) :
+    ∀ (b : RB) (e : RErr), firstReaderErr p b = some e → ∃ o, runRB p b = .done o ∧ Q e o := by
+  induction hp with
+  | ret a => intro b e h; simp [firstReaderErr] at h
+  | read n k _ herr ih =>
+    intro b e h
+    simp only [firstReaderErr] at h
+    simp only [runRB]
+    cases hr : b.readN n with
+    | mk r b' =>
+      rw [hr] at h
+      cases r with
+      | ok bs => exact ih bs b' e h
+      | err e' =>
+        simp only at h ⊢
+        obtain ⟨a, hk, hq⟩ := herr e'
+        by_cases hf : e'.isReaderFailure = true
+        · simp only [hf, if_true, Option.some.injEq] at h
+          subst h
+          exact ⟨a, by rw [hk]; rfl, hq⟩
+        · simp only [hf, if_false] at h
+          rw [hk] at h
+          simp [firstReaderErr] at h
+      | panic => simp at h
+
+variable {Q : RErr → Out → Prop} (hQ : ∀ e evs, Q e { evs := evs, status := some (.io e) })
+include hQ
+
+theorem keeps_rdN (chk : Bool) (n : Nat) (st : St) (k : Bytes → St → P)
+    (hk : ∀ b st', Keeps Q (k b st')) : Keeps Q (rdN chk n st k) := by
+  unfold rdN
+  exact Keeps.read n _ (fun bs => hk bs _) (fun e => ⟨_, rfl, hQ e _⟩)
+
+theorem keeps_fields (chk : Bool) (fs : List Triplet) :
+    ∀ (st : St) (acc : List (Nat × Nat)) (k : St → List (Nat × Nat) → P),
+      (∀ st' acc', Keeps Q (k st' acc')) → Keeps Q (fields chk fs st acc k) := by
+  induction fs with
+  | nil => intro st acc k hk; exact hk st acc
+  | cons t fs ih =>
+    intro st acc k hk
+    obtain ⟨num, size, bt⟩ := t
+    simp only [fields]
+    split
+    · exact ih st acc k hk
+    · exact keeps_rdN hQ chk size st _ (fun b st' => ih _ _ k hk)
+
+theorem keeps_devFields (chk : Bool) (descs : List Triplet) (fs : List Triplet) :
+    ∀ (st : St) (cnt : Nat) (k : St → Nat → P),
+      (∀ st' cnt', Keeps Q (k st' cnt')) → Keeps Q (devFields chk descs fs st cnt k) := by
+  induction fs with
+  | nil => intro st cnt k hk; exact hk st cnt
+  | cons t fs ih =>
+    intro st cnt k hk
+    obtain ⟨num, size, ddi⟩ := t
+    simp only [devFields]
+    split
+    · exact keeps_rdN hQ chk size st _ (fun b st' => ih _ _ k hk)
+    · split
+      · exact Keeps.ret _
+      · split
+        · exact ih st cnt k hk
+        · exact keeps_rdN hQ chk size st _ (fun b st' => ih _ _ k hk)
+
+theorem keeps_message (chk : Bool) (st : St) (k : St → P) (hk : ∀ st', Keeps Q (k st')) : Keeps Q (message chk st k) := by
+  unfold message
+  refine keeps_rdN hQ chk 1 st _ (fun b st' => ?_)
+  simp only
+  split
+  · unfold definition
+    refine keeps_rdN hQ chk 5 _ _ (fun b st' => ?_)
+    refine keeps_rdN hQ chk _ _ _ (fun fb st' => ?_)
+    simp only
+    split
+    · exact Keeps.ret _
+    · split
+      · refine keeps_rdN hQ chk 1 _ _ (fun nb st' => ?_)
+        exact keeps_rdN hQ chk _ _ _ (fun db st' => hk _)
+      · exact hk _
+  · unfold data
+    simp only
+    split
+    · exact Keeps.ret _
+    · exact keeps_fields hQ chk _ _ _ _ (fun st' vals => keeps_devFields hQ chk _ _ _ _ _ (fun st'' nd => hk _))
+
+theorem keeps_messages (chk : Bool) (dataSize : Nat) (fuel : Nat) :
+    ∀ (st : St) (k : St → P), (∀ st', Keeps Q (k st')) → Keeps Q (messages chk dataSize fuel st k) := by
+  induction fuel with
+  | zero => intro st k hk; exact hk st
+  | succ fuel ih =>
+    intro st k hk
+    simp only [messages]
+    split
+    · exact keeps_message hQ chk st _ (fun st' => ih st' k hk)
+    · exact hk st
+
+theorem keeps_fileCrc (chk : Bool) (st : St) (k : Nat → P) (hk : ∀ c, Keeps Q (k c)) : Keeps Q (fileCrc chk st k) := by
+  unfold fileCrc
+  refine Keeps.read 2 _ (fun bs => ?_) (fun e => ⟨_, rfl, hQ e _⟩)
+  simp only
+  split
+  · exact Keeps.ret _
+  · exact hk _
+
+omit hQ in
+theorem keeps_fileHeader (chk : Bool) (onFirst : RErr → P) (onErr : Err → P) (k : Hdr → P)
+    (h1 : ∀ e, ∃ a, onFirst e = .ret a ∧ Q e a) (h2 : ∀ e, ∃ a, onErr (.io e) = .ret a ∧ Q e a)
+    (h3 : ∀ e, Keeps Q (onErr e)) (hk : ∀ h, Keeps Q (k h)) : Keeps Q (fileHeader chk onFirst onErr k) := by
+  unfold fileHeader
+  refine Keeps.read 1 _ (fun b0 => ?_) h1
+  simp only
+  split
+  · exact h3 _
+  · refine Keeps.read _ _ (fun b => ?_) h2
+    simp only
+    repeat' split
+    all_goals first | exact h3 _ | exact hk _
+
+omit hQ in
+/-- a single `Decode()` of a fresh decoder (`fuel = 1`): every failing request ends the run with that error -/
+theorem keeps_decodeOnce (chk : Bool) (evs : List Ev) :
+    Keeps (fun e o => o.status = some (.io e)) (decodeLoop chk 1 true evs) := by
+  have hQ : ∀ (e : RErr) (evs : List Ev), (fun e (o : Out) => o.status = some (.io e)) e { evs := evs, status := some (.io e) } :=
+    fun _ _ => rfl
+  simp only [decodeLoop]
+  refine keeps_fileHeader chk _ _ _ (fun e => ⟨_, rfl, rfl⟩) (fun e => ⟨_, rfl, rfl⟩) (fun e => Keeps.ret _) (fun h => ?_)
+  refine keeps_messages hQ chk _ _ _ _ (fun st' => ?_)
+  exact keeps_fileCrc hQ chk st' _ (fun c => Keeps.ret _)
+
+omit hQ in
+/-- the `Next`/`Decode` loop: every failing request ends the run with that error either returned or kept as the
+decoder's sticky error (`swallowed`) while the loop ends silently -/
+theorem keeps_decodeLoop (chk : Bool) (fuel : Nat) : ∀ (first : Bool) (evs : List Ev),
+    Keeps (fun e o => o.status = some (.io e) ∨ (o.status = none ∧ o.swallowed = some (.io e))) (decodeLoop chk fuel first evs) := by
+  have hQ : ∀ (e : RErr) (evs : List Ev), (fun e (o : Out) => o.status = some (.io e) ∨ (o.status = none ∧ o.swallowed = some (.io e)))
+      e { evs := evs, status := some (.io e) } := fun _ _ => Or.inl rfl
+  induction fuel with
+  | zero => intro first evs; exact Keeps.ret _
+  | succ fuel ih =>
+    intro first evs
+    simp only [decodeLoop]
+    refine keeps_fileHeader chk _ _ _ ?_ ?_ ?_ (fun h => ?_)
+    · intro e; cases first
+      · exact ⟨_, rfl, Or.inr ⟨rfl, rfl⟩⟩
+      · exact ⟨_, rfl, Or.inl rfl⟩
+    · intro e; cases first
+      · exact ⟨_, rfl, Or.inr ⟨rfl, rfl⟩⟩
+      · exact ⟨_, rfl, Or.inl rfl⟩
+    · intro e; split <;> exact Keeps.ret _
+    · refine keeps_messages hQ chk _ _ _ _ (fun st' => ?_)
+      exact keeps_fileCrc hQ chk st' _ (fun c => ih false _)
+
 end Fit.DecProg
